@@ -446,6 +446,13 @@ func TestDrive(t *testing.T) {
 				ncli++
 			}
 		}
+		for i := 0; i < 3; i++ {
+			if line, ok := cliSignalTwice(prop, i, seed); ok {
+				fmt.Fprintln(bw, line)
+				dist["cli/interrupt-twice"]++
+				ncli++
+			}
+		}
 	}
 	meta["cli_cases"] = ncli
 	meta["cases"], meta["distribution"], meta["samples"] = len(scripts)+ncli, dist, samples
